@@ -8,15 +8,15 @@ open Rx Rx.Gen.Map
 def absMap (g : MapObserver) : St1 := .map g.map
 
 theorem tie_Map_next (g : MapObserver) (v : Val) :
-    (MapObserver.next g v).map (fun r => (absMap r.1, r.2)) = some (St1.onNext (absMap g) v) := by
+    (MapObserver.next g v).map (fun r => (absMap r.1, r.2)) = some (Rs.lift (St1.onNext (absMap g) v)) := by
   rcases g with ⟨⟩ <;> rs_tie [MapObserver.next, absMap, St1.onNext]
 
 theorem tie_Map_error (g : MapObserver) (e : Err) :
-    (MapObserver.error g e).map (fun r => r.2) = some (St1.onError' (absMap g) e).2 := by
+    (MapObserver.error g e).map (fun r => r.2) = some ((St1.onError' (absMap g) e).2.map Rs.Ev.n) := by
   rcases g with ⟨⟩ <;> rs_tie [MapObserver.error, absMap, St1.onError']
 
 theorem tie_Map_complete (g : MapObserver) :
-    (MapObserver.complete g).map (fun r => r.2) = some (St1.onComplete' (absMap g)).2 := by
+    (MapObserver.complete g).map (fun r => r.2) = some ((St1.onComplete' (absMap g)).2.map Rs.Ev.n) := by
   rcases g with ⟨⟩ <;> rs_tie [MapObserver.complete, absMap, St1.onComplete']
 
 
